@@ -40,6 +40,8 @@ type c02Case struct {
 	// Batched: the target connection keeps the arguments of Send until Flush and serialises them
 	// only then, as the tool's cluster connection does (utils.ClusterConn.Send -> Batch.Put)
 	Batched bool `json:"batched_connection,omitempty"`
+	// Debug: log.level = debug (debug lines are built from the entry's data, and must not change it)
+	Debug bool `json:"log_level_debug,omitempty"`
 }
 
 // c02BatchConn models the argument retention of the cluster connection on top of a real redigo
@@ -266,6 +268,11 @@ func c02Restore(c c02Case, entries []*rdb.BinEntry, lg *rdbgen.Logical, body []b
 	before := srv.Snapshot()
 	cc, sc := memconn.Pair("target")
 	go srv.Serve(sc)
+	conf.Options.LogLevel = "info"
+	if c.Debug {
+		conf.Options.LogLevel = LogLevelDebug
+	}
+	defer func() { conf.Options.LogLevel = "info" }()
 	var rc redigo.Conn = redigo.NewConn(cc, 0, 0)
 	if c.Batched {
 		rc = &c02BatchConn{Conn: rc}
@@ -530,6 +537,8 @@ func TestVerif_C02(t *testing.T) {
 				}
 				for pre := 0; pre < 2; pre++ {
 					run(c02Case{Val: v, Exp: 1, Threshold: thr, KeyExists: "rewrite", Replace: true, Reject: rej, Pre: pre, Batched: true})
+					// and, on both kinds of connection, with log.level = debug
+					run(c02Case{Val: v, Exp: 1, Threshold: thr, KeyExists: "rewrite", Replace: true, Reject: rej, Pre: pre, Batched: pre == 0, Debug: true})
 				}
 			}
 		}
